@@ -70,6 +70,7 @@ def eos_residual(ctx):
     ctx.touch(q)
     it = interp(ctx)
     box = {}
+    runs = []
 
     def run(x):
         bound = {p: reduced_args().get(p, Num(nf.sym(p))) for p in fi0.params}
@@ -85,9 +86,29 @@ def eos_residual(ctx):
         extra_vals = list(extra.items) if isinstance(extra, TupV) else ([extra] if extra is not None else [])
         box["F"] = x.call(fv, [Num(RHO)] + extra_vals, {}, evs[0].node, None)
         box["fi"], box["ev"] = fv.info, evs[0]
+        runs.append(dict(box))
         return val
 
     paths = returns(it.explore(run))
+    if len(paths) > 1 and len(runs) >= len(paths):
+        # several trace partitions: the same equation and the same result on all of them, or the extra ones are reported
+        recs = list(zip(paths, runs[-len(paths):])) if len(runs) == len(paths) else []
+        distinct = {}
+        for p_, r_ in recs:
+            if isinstance(r_.get("F"), Num) and isinstance(p_.value, Num):
+                distinct.setdefault((nf.key(r_["F"].nf), nf.key(p_.value.nf)), (p_, r_))
+        if recs and len(distinct) >= 1:
+            ordered = sorted(distinct.values(), key=lambda pr: sum(1 for _k, c, _d in pr[0].decisions if c))
+            main_p, main_r = ordered[0]
+            for p_, _r in ordered[1:]:
+                tag = ", ".join(("" if c else "not ") + d[:70] for _k, c, d in p_.decisions)
+                ctx.bad(
+                    f"{ctx.prop}-a", q + f":another equation [{tag}]", fi0.where(),
+                    "one equation of state answers every (T_r, p_r) of the documented range: no partition of the inputs solves a different residual or returns a different Z",
+                    signature="alternative equation " + tag[:80], selected_by=tag,
+                )
+            paths = [main_p]
+            box.update(main_r)
     if len(paths) != 1 or not isinstance(box.get("F"), Num):
         raise AnalysisError("z_factor_DAK: objective is not a single numeric expression on a single path")
     ctx.touch(box["fi"].qualname)
@@ -148,8 +169,8 @@ def viscosity_rules(ctx, rule):
     # and Z := Kd p gamma / (rho T_abs) is substituted (whether viscosity_Sutton calls density_DAK or a shared worker)
     ZQ = GAS + "z_factor_DAK"
     ra = dict(reduced_args())
-    mu0 = only(run(ctx, q, args=ra, opaque={ZQ}), "viscosity_Sutton").value.nf
-    d0 = only(run(ctx, GAS + "density_DAK", args=ra, opaque={ZQ}), "density_DAK").value.nf
+    mu0 = only(run(ctx, q, args=ra, opaque={ZQ}), "viscosity_Sutton", ctx, rule).value.nf
+    d0 = only(run(ctx, GAS + "density_DAK", args=ra, opaque={ZQ}), "density_DAK", ctx, rule).value.nf
     zat = sorted({a for a in nf.atoms(mu0) if a[0] == "fn" and a[1] == ZQ}, key=repr)
     zad = sorted({a for a in nf.atoms(d0) if a[0] == "fn" and a[1] == ZQ}, key=repr)
     if len(zat) != 1 or zat != zad:
